@@ -104,6 +104,9 @@ PROPS = {
         streams=[
             S("procmsg", ["--cases", 300], ["--cases", 30000]),
             S("node", ["--cases", 100], ["--cases", 5000, "--ops", 120]),
+            # block frames from a raw peer through a real swarm (also with a suspending registered hasher): what the
+            # behaviour is handed is keyed by the CID recomputed from the data
+            S("simraw", ["--cases", 120], ["--cases", 6000]),
         ],
     ),
     "C02": dict(
@@ -261,7 +264,11 @@ PROPS = {
         streams=[
             S("hash", ["--cases", 800], ["--cases", 100000, "--exhaustive"]),
             S("procmsg", ["--cases", 150], ["--cases", 10000]),
+            # a real swarm whose node hashes sha2-256 blocks with a registered multihasher whose future suspends; a raw
+            # peer sends block frames back to back: every block must reach the behaviour under its recomputed CID
+            S("simraw", ["--cases", 120], ["--cases", 6000]),
         ],
+        validate_conn_traces=True,
     ),
     "C19": dict(
         lean_modules=["Beetswap.Props.C19"],
